@@ -80,7 +80,8 @@ KANI_UNITS["C10"] = dict(
     cell_grades={"_str$": "K-bounded(2-byte string literal)",
                  "c10_lit_(div|mod)_int_int$": "K-bounded(divisor in {0, 1, -1, 2, 3, -7, 10, i64::MAX, i64::MIN}; dividend full-domain)",
                  "c10_lit_div_float_float$": "K-bounded(divisor in {0.0, -0.0, 1.0, -1.0, 2.0, 0.5, inf, NaN}; dividend full-domain)"},
-    functions=["varpulis-parser/src/optimize.rs: fold_binary (every arm: 10 literal arms, 8 identity arms, reconstruct), fold_unary",
+    native_grade="bounded(native exhaustive enumeration: every expression tree of depth <= 3 (one operand a leaf at the top level) over 10 operators x 19 leaves incl. float / int / string / missing fields: about 1.4 million trees)",
+    functions=["varpulis-parser/src/optimize.rs: fold_expr on whole trees (native enumeration)", "varpulis-parser/src/optimize.rs: fold_binary (every arm: 10 literal arms, 8 identity arms, reconstruct), fold_unary",
                "varpulis-runtime/src/engine/evaluator.rs: eval_expr_with_functions (as the semantics both sides are compared under)"],
     explanation=("One cell per rewrite arm of the REAL fold_binary/fold_unary: for literal x literal arms the operands are full-domain i64/f64; for the identity "
                  "arms (x*0, 0*x, x*1, 1*x, x+0, 0+x, x-0, x/1) the wildcard operand ranges over literal leaves of every other kind (Float full-domain, Str, Bool, "
@@ -89,7 +90,7 @@ KANI_UNITS["C10"] = dict(
                  "are represented by literal leaves of each value type (event-field lookup is a hash-map lookup, outside CBMC's reach). NOT covered (measured: CBMC unrolls the "
                  "recursive evaluator once per tree level and does not finish trees deeper than root+leaves in 25 min): fold_expr's recursive shell over nested expressions, "
                  "operands that evaluate to no value, and any NEW rewrite arm that matches nested shapes such as (x+a)+b or x+a<b (seeded C10-m1/m2 are missed). The Pow/Int-Int arm "
-                 "is compared through CBMC's nondeterministic model of powi and is therefore not decided (cell removed, listed)."),
+                 "is compared through CBMC's nondeterministic model of powi and is therefore not decided (cell removed, listed). Rewrites that depend on the SHAPE of nested operands or on the run-time type of a field are covered by a BOUNDED STAND-IN run natively: every tree of depth <= 3 over 10 operators and 19 leaves (literals and the fields x, big (floats), i, top (ints), s (string), m (missing)) is folded by the real fold_expr and both versions are evaluated by the real evaluator on an event carrying those fields; trees containing an identity pattern with a non-integer-literal operand are skipped there (they are the known findings of the identity cells)."),
     assumptions=EVAL_STUBS + ["cfg(kani) re-export shim appended to optimize.rs (3 one-line wrappers)", "Value::eq is the notion of 'same value' (NaN == NaN, -0.0 == 0.0)"],
 )
 
